@@ -34,6 +34,20 @@ type Opts struct {
 	TwoHolders bool // two holding columns (e.g. k8s multiline followed by join)
 	FastOut    bool // batch count 1, no send delays, no feeder pauses, no slow events
 	SplitOften bool // every second event is split
+
+	// threshold-crossing knobs (zero value = the historical range); every draw they add happens only when they are set,
+	// so the cases of the older families do not change
+	Capacity  [2]int // pipeline capacity (default 2..24)
+	EvTimeout [2]int // event time-out in ms (default 20..60; the streamer heartbeat is 200 ms)
+	Flush     [2]int // batcher flush time-out in ms (default 5..40; the batcher heartbeat is 100 ms)
+	GapMul    int    // idle gaps last 1..GapMul event time-outs (default 3)
+	Pool      int    // 0 either pool, 1 low-memory, 2 standard
+	Recycle   bool   // events past the pools' recycle thresholds: pads > AvgEventSize up to 64 KiB, > 64 JSON nodes, Buf > 4 KiB
+	Kids      [2]int // children per split (default exactly 2, all passing)
+	KidOps    string // alphabet of the children's ops in non-holding columns (default "p")
+	SplitAny  bool   // the split column may be left of the holding column (children meet a busy action)
+	Backoff   bool   // retriable output with MinRetention 4..12 ms and Multiplier 1.5..3 instead of 1 ms / 1.0
+	Maint     bool   // batcher MaintenanceFn every 1..30 ms
 }
 
 type Rng interface {
@@ -62,13 +76,24 @@ func GenCase(r Rng, o Opts) hx.Sx {
 		holdCol2 = r.Range(holdCol+1, nAct-1)
 	}
 	outKind := pick(r, o.OutKinds)
-	capacity := r.Range(2, 24)
-	evTimeout := r.Range(20, 60)
-	workers, count, flush := r.Range(1, 3), r.Range(1, 4), r.Range(5, 40)
+	rng := func(x [2]int, lo, hi int) int {
+		if x[1] > 0 {
+			lo, hi = x[0], x[1]
+		}
+		return r.Range(lo, hi)
+	}
+	capacity := rng(o.Capacity, 2, 24)
+	evTimeout := rng(o.EvTimeout, 20, 60)
+	workers, count := r.Range(1, 3), r.Range(1, 4)
+	flush := rng(o.Flush, 5, 40)
 	if o.FastOut {
 		workers, count, capacity = r.Range(2, 3), 1, 24
 	}
 	retry := r.Range(0, 1)
+	gapMul := 3
+	if o.GapMul > 0 {
+		gapMul = o.GapMul
+	}
 	dq, spread := 0, 0
 	if o.DeadQ {
 		dq = 1
@@ -76,7 +101,11 @@ func GenCase(r Rng, o Opts) hx.Sx {
 	if o.Spread {
 		spread = 1
 	}
-	cfg := hx.L(hx.I(procs), hx.I(r.Intn(2)), hx.I(capacity), hx.I(evTimeout), hx.I(nAct), hx.I(outKind), hx.I(workers), hx.I(count),
+	poolKind := r.Intn(2)
+	if o.Pool > 0 {
+		poolKind = o.Pool - 1
+	}
+	cfg := hx.L(hx.I(procs), hx.I(poolKind), hx.I(capacity), hx.I(evTimeout), hx.I(nAct), hx.I(outKind), hx.I(workers), hx.I(count),
 		hx.I(flush), hx.I(retry), hx.I(dq), hx.I(spread))
 	nsrc := r.Range(o.Sources[0], o.Sources[1])
 	var feeders []hx.Sx
@@ -84,7 +113,7 @@ func GenCase(r Rng, o Opts) hx.Sx {
 		nstreams := r.Range(o.Streams[0], o.Streams[1])
 		n := r.Range(o.Events[0], o.Events[1])
 		var ops []hx.Sx
-		off := 0
+		off, ngaps := 0, 0
 		for i := 0; i < n; i++ {
 			off += r.Range(1, 30)
 			var sb strings.Builder
@@ -107,14 +136,26 @@ func GenCase(r Rng, o Opts) hx.Sx {
 				sb.WriteByte(c)
 			}
 			opsStr := sb.String()
+			if o.Recycle && nAct > 0 && r.Chance(1, 6) {
+				// one passing action grows the event's scratch buffer past 4 KiB
+				b := []byte(opsStr)
+				if col := r.Intn(nAct); b[col] == 'p' {
+					b[col] = 'g'
+					opsStr = string(b)
+				}
+			}
 			js := fmt.Sprintf(`{"stream":"s%d","ops":"%s"`, r.Intn(nstreams), opsStr)
 			if o.Split && (r.Chance(1, 6) || (o.SplitOften && r.Bool())) && nAct > 0 {
 				col := r.Intn(nAct)
-				if holdCol < 0 || col >= holdCol {
+				if holdCol < 0 || col >= holdCol || o.SplitAny {
 					b := []byte(opsStr)
 					b[col] = 's'
-					js = fmt.Sprintf(`{"stream":"s%d","ops":"%s","kids":[{"ops":"%s","m":"%s"},{"ops":"%s","m":"%s"}]`, r.Intn(nstreams), string(b),
-						strings.Repeat("p", nAct), strings.Repeat("1", nAct+1), strings.Repeat("p", nAct), strings.Repeat("1", nAct+1))
+					if o.Kids[1] == 0 && o.KidOps == "" {
+						js = fmt.Sprintf(`{"stream":"s%d","ops":"%s","kids":[{"ops":"%s","m":"%s"},{"ops":"%s","m":"%s"}]`, r.Intn(nstreams), string(b),
+							strings.Repeat("p", nAct), strings.Repeat("1", nAct+1), strings.Repeat("p", nAct), strings.Repeat("1", nAct+1))
+					} else {
+						js = fmt.Sprintf(`{"stream":"s%d","ops":"%s","kids":[%s]`, r.Intn(nstreams), string(b), genKids(r, o, nAct, holdCol, holdCol2, off))
+					}
 				}
 			}
 			{
@@ -135,13 +176,43 @@ func GenCase(r Rng, o Opts) hx.Sx {
 			if r.Chance(1, 25) {
 				js += `,"refuse":1`
 			}
+			padLen, nWide := -1, 0
+			if o.Recycle && r.Chance(1, 3) {
+				// past the recycle thresholds of the pools: Size > AvgEventSize (up to the 64 KiB size class), a Root of
+				// more than 4 * 16 nodes; the small events that follow reuse the same objects
+				switch r.Intn(8) {
+				case 0:
+					padLen = r.Range(60000, 66000)
+				case 1, 2:
+					padLen = r.Range(3500, 9000)
+				case 3:
+					padLen = 0
+				default:
+					padLen = r.Range(200, 3000)
+				}
+				if r.Chance(1, 3) {
+					nWide = r.Range(60, 200)
+				}
+				js += fmt.Sprintf(`,"plen":%d,"off":%d`, padLen, off)
+				if nWide > 0 {
+					js += fmt.Sprintf(`,"wn":%d`, nWide)
+				}
+			}
 			js += "}"
 			if r.Chance(1, 30) {
 				js = `{"broken json` // undecodable: refused, event returned to the pool
 			}
-			ops = append(ops, hx.L(hx.I(0), hx.I(s+1), hx.I(off), hx.S(js)))
+			if padLen >= 0 {
+				ops = append(ops, hx.L(hx.I(6), hx.I(s+1), hx.I(off), hx.S(js), hx.I(padLen), hx.I(nWide)))
+			} else {
+				ops = append(ops, hx.L(hx.I(0), hx.I(s+1), hx.I(off), hx.S(js)))
+			}
 			if o.Gaps && r.Chance(1, 6) {
-				ops = append(ops, hx.L(hx.I(1), hx.I(r.Range(1, 3)*evTimeout+r.Range(0, 250))))
+				gap := hx.L(hx.I(1), hx.I(r.Range(1, gapMul)*evTimeout+r.Range(0, 250)))
+				// families with long event time-outs: at most three idle gaps per feeder (a gap costs up to a second)
+				if ngaps++; o.EvTimeout[1] <= 200 || ngaps <= 3 {
+					ops = append(ops, gap)
+				}
 			} else if !o.FastOut && r.Chance(1, 8) {
 				ops = append(ops, hx.L(hx.I(1), hx.I(r.Range(1, 15))))
 			}
@@ -165,7 +236,57 @@ func GenCase(r Rng, o Opts) hx.Sx {
 		}
 		plan = append(plan, hx.L(hx.I(d), hx.I(f)))
 	}
-	return hx.L(cfg, hx.L(feeders...), hx.L(plan...))
+	if !o.Recycle && !o.Backoff && !o.Maint {
+		return hx.L(cfg, hx.L(feeders...), hx.L(plan...))
+	}
+	avg, retention, mult, maint := 0, 0, 0, 0
+	if o.Recycle {
+		avg = []int{32, 256, 2048}[r.Intn(3)]
+	}
+	if o.Backoff {
+		retention, mult = r.Range(4, 12), []int{150, 200, 300}[r.Intn(3)]
+	}
+	if o.Maint {
+		maint = r.Range(1, 30)
+	}
+	return hx.L(cfg, hx.L(feeders...), hx.L(plan...), hx.L(hx.I(avg), hx.I(retention), hx.I(mult), hx.I(maint)))
+}
+
+// genKids: the "kids" array of a split event: Kids[0]..Kids[1] objects, each with its own op per action (the columns left
+// of and at the split column are never consulted: a child starts behind its parent), its own match mask, and the fields
+// checkEvent uses to recognise a child that is not its own ("kid" = "<parent offset>.<index>").
+func genKids(r Rng, o Opts, nAct, holdCol, holdCol2, off int) string {
+	lo, hi := 2, 2
+	if o.Kids[1] > 0 {
+		lo, hi = o.Kids[0], o.Kids[1]
+	}
+	n := r.Range(lo, hi)
+	alphabet := o.KidOps
+	if alphabet == "" {
+		alphabet = "p"
+	}
+	var sb strings.Builder
+	for i := 0; i < n; i++ {
+		ops := make([]byte, nAct)
+		m := make([]byte, nAct+1)
+		for a := range ops {
+			ops[a] = alphabet[r.Intn(len(alphabet))]
+			if a == holdCol || a == holdCol2 {
+				ops[a] = "hccpd"[r.Intn(5)]
+			}
+		}
+		for a := range m {
+			m[a] = '1'
+			if a < nAct && r.Chance(1, 9) {
+				m[a] = '0'
+			}
+		}
+		if i > 0 {
+			sb.WriteByte(',')
+		}
+		fmt.Fprintf(&sb, `{"ops":"%s","m":"%s","kid":"%d.%d","koff":%d,"ki":%d}`, ops, m, off, i, off, i)
+	}
+	return sb.String()
 }
 
 // RunJobs executes the jobs concurrently (each needs a few hundred ms of real time).
@@ -202,4 +323,132 @@ var (
 	// spread routing with a split action: children and their parent travel through the kafka-like input's Commit path
 	FamSpreadSplit = Opts{Procs: []int{2, 4}, Actions: [2]int{1, 2}, Ops: "ppp", Split: true, SplitOften: true, OutKinds: []int{0, 1}, Spread: true, Sources: [2]int{2, 3}, Streams: [2]int{1, 1}, Events: [2]int{6, 25}}
 	FamSpread      = Opts{Procs: []int{2, 4, 8}, Actions: [2]int{0, 2}, Ops: "pppd", OutKinds: []int{0, 1}, Spread: true, Sources: [2]int{2, 4}, Streams: [2]int{1, 1}, Events: [2]int{10, 40}}
+
+	// ---- families that cross thresholds hard-coded in /repo/pipeline (notes/threshold-audit.txt) ----
+
+	// capacity 1 (C04 "all capacities down to 1", C05 "capacities 1..N"): one event in flight; a held event owns the only
+	// slot until the event time-out, the parent of a split owns it while its children travel.  A regression that needs a
+	// second slot to make progress (e.g. `inUse < capacity` instead of `<=` in get, or a finalize path that takes an event
+	// before giving one back) never reaches quiescence here: monitor 1 (stuck) / 4 (conservation)
+	FamCap1 = Opts{Procs: []int{1, 2, 4}, Actions: [2]int{0, 3}, Ops: "pppd", HoldCol: true, Split: true, OutKinds: []int{0, 1, 1}, Sources: [2]int{1, 3},
+		Streams: [2]int{1, 2}, Events: [2]int{3, 12}, Gaps: true, Capacity: [2]int{1, 1}}
+	// flush time-out at or above the batcher's 100 ms heartbeat (production defaults are 200 ms .. 1 s): a partly filled
+	// batch is looked at by several ticks before it is due.  A regression that restarts batch.startTime on every tick (or in
+	// getBatch for a batch that is already being filled) still flushes below 100 ms but never here: the NotReady label's
+	// (elapsed, timeout) pair breaks the LTS guard, and the run ends stuck (monitor 1)
+	FamSlowFlush = Opts{Procs: []int{1, 2, 4}, Actions: [2]int{0, 2}, Ops: "ppppd", OutKinds: []int{1, 1, 2}, Sources: [2]int{1, 2}, Streams: [2]int{1, 2},
+		Events: [2]int{3, 14}, Flush: [2]int{100, 320}}
+	// event time-out above the streamer's 200 ms heartbeat: a blocked stream is visited by two to four heartbeats before its
+	// time-out is due.  A regression that refreshes stream.blockTime on every visit (tryUnblock) or on every spurious wake-up
+	// of blockGet never sends the time-out event: the held run is never flushed, the run ends stuck (monitors 1, 4)
+	FamHoldSlow = Opts{Procs: []int{1, 2, 4}, Actions: [2]int{1, 3}, Ops: "pppd", HoldCol: true, OutKinds: []int{0, 1, 1}, Sources: [2]int{1, 2},
+		Streams: [2]int{1, 2}, Events: [2]int{3, 10}, Gaps: true, GapMul: 1, EvTimeout: [2]int{250, 700}}
+	// events past the recycle thresholds of the pools (event.go resetEvent: Size > AvgEventSize, cap(Buf) > 4096, node pool
+	// > 64; low-memory size classes up to 64 KiB) followed by small events on the same objects (capacity 1..6: the standard
+	// pool wraps, sync.Pool hands the same object back).  checkEvent (drv.go) recognises an event whose content is not what
+	// was read; a regression in resetEvent / Event.reset that keeps `next`, `stream`, `children` or `kind` of the previous
+	// life breaks the stream / processor LTS replay and monitors 4, 7
+	FamRecycle = Opts{Procs: []int{1, 2, 4}, Actions: [2]int{1, 3}, Ops: "pppd", HoldCol: true, Split: true, OutKinds: []int{0, 1}, Sources: [2]int{1, 2},
+		Streams: [2]int{1, 2}, Events: [2]int{10, 40}, Capacity: [2]int{1, 6}, Recycle: true, Kids: [2]int{0, 5}, KidOps: "ppd"}
+	// split fan-out 0..14 (more children than batch size x workers and than the capacity), children that are discarded,
+	// that skip actions, that meet a busy holding action right of the split (held / collapsed children are flushed by the
+	// time-out tail of Spawn), a big parent followed by a small one on the same event object (e.children[:0] reuse).
+	// A regression in Spawn's time-out tail leaves a child held for ever (processor LTS: a held event at the next Take), one
+	// in finalize's release of the children is seen by checkEvent ("kid") or as a crash
+	FamSplitFan = Opts{Procs: []int{1, 2, 4}, Actions: [2]int{1, 3}, Ops: "pppd", HoldCol: true, Split: true, SplitOften: true, SplitAny: true,
+		Kids: [2]int{0, 14}, KidOps: "pppdg", OutKinds: []int{0, 1}, Sources: [2]int{1, 2}, Streams: [2]int{1, 2}, Events: [2]int{3, 20}, Gaps: true,
+		Capacity: [2]int{1, 8}}
+	// retriable output with a real backoff (MinRetention 4..12 ms, Multiplier 1.5..3: the pauses grow) instead of the frozen
+	// 1 ms / 1.0: later batches finish while an earlier one sleeps between attempts for tens of ms.  A regression that lets
+	// a batch behind a sleeping one commit first breaks the batcher LTS (CommitBegin guard) and monitors 5, 6 (C01), 2 (C02)
+	FamRetryBackoff = Opts{Procs: []int{1, 2, 4}, Actions: [2]int{0, 2}, Ops: "pppd", OutKinds: []int{2}, Failures: true, Sources: [2]int{1, 2},
+		Streams: [2]int{1, 2}, Events: [2]int{4, 12}, Backoff: true}
+	// the batcher's MaintenanceFn hook (elasticsearch, clickhouse, ... set it) runs in the worker between two batches
+	FamMaint = Opts{Procs: []int{1, 2, 4}, Actions: [2]int{0, 2}, Ops: "ppppd", OutKinds: []int{1, 2}, Sources: [2]int{1, 2}, Streams: [2]int{1, 2},
+		Events: [2]int{5, 30}, Maint: true}
 )
+
+// Stats counts, per case, which thresholds of /repo/pipeline the case crosses (for the evidence file's distribution).
+func Stats(count func(string), j *Job) {
+	it := hx.Items(j.Case)
+	ci := hx.Items(it[0])
+	g := func(i int) int { return int(hx.Int(ci[i])) }
+	if g(2) == 1 {
+		count("pipe: capacity 1")
+	}
+	if g(3) > 200 {
+		count("pipe: event time-out > 200 ms streamer heartbeat")
+	}
+	if g(5) >= 1 && g(8) >= 100 {
+		count("pipe: flush time-out >= 100 ms batcher heartbeat")
+	}
+	avg := 256
+	if len(it) > 3 {
+		ext := hx.Items(it[3])
+		if v := int(hx.Int(ext[0])); v > 0 {
+			avg = v
+		}
+		if hx.Int(ext[1]) > 1 || hx.Int(ext[2]) > 100 {
+			count("pipe: backoff retention > 1 ms / multiplier > 1")
+		}
+		if hx.Int(ext[3]) > 0 {
+			count("pipe: batcher maintenance hook set")
+		}
+	}
+	big, huge, wide, grow, kids0, kids1, kidsMany := false, false, false, false, false, false, false
+	for _, f := range hx.Items(it[1]) {
+		for _, op := range hx.Items(f) {
+			o := hx.Items(op)
+			k := hx.Int(o[0])
+			if k != 0 && k != 6 {
+				continue
+			}
+			js := hx.Bytes(o[3])
+			n := len(js)
+			if k == 6 {
+				n += int(hx.Int(o[4]))
+				wide = wide || hx.Int(o[5]) > 64
+			}
+			big = big || n > avg
+			huge = huge || n > 32768
+			if i := strings.Index(string(js), `"ops":"`); i >= 0 {
+				rest := string(js[i+7:])
+				if e := strings.IndexByte(rest, '"'); e >= 0 && strings.IndexByte(rest[:e], 'g') >= 0 {
+					grow = true
+				}
+			}
+			if i := strings.Index(string(js), `"kids":[`); i >= 0 {
+				switch c := strings.Count(string(js), `"kid":`); {
+				case strings.HasPrefix(string(js[i:]), `"kids":[]`):
+					kids0 = true
+				case c == 1:
+					kids1 = true
+				case c > 8:
+					kidsMany = true
+				}
+			}
+		}
+	}
+	for _, x := range []struct {
+		b bool
+		k string
+	}{{big, "pipe: event larger than AvgEventSize"}, {huge, "pipe: event > 32 KiB (64 KiB size class)"}, {wide, "pipe: event with > 64 JSON nodes"},
+		{grow, "pipe: action grows Buf past 4 KiB"}, {kids0, "pipe: split into 0 children"}, {kids1, "pipe: split into 1 child"}, {kidsMany, "pipe: split into > 8 children"}} {
+		if x.b {
+			count(x.k)
+		}
+	}
+	for _, l := range hx.Items(j.Obs) {
+		o := hx.Items(l)
+		switch hx.Int(o[2]) {
+		case LProcCount:
+			if hx.Int(o[3]) > hx.Int(o[4]) {
+				count("pipe: processors expanded during the case")
+			}
+		case LMaint:
+			if hx.Int(o[3]) == 1 {
+				count("pipe: maintenance hook ran")
+			}
+		}
+	}
+}
